@@ -44,7 +44,7 @@ theorem runLoop_sound (P : Program) (lim : Limits) :
           obtain ⟨sr, hsr, hy⟩ := mem_stepResults.mp this
           exact Derives.step h hsr hy
       split at hx
-      · exact hder x hx
+      · split at hx <;> exact hder x hx
       · split at hx
         · exact hder x hx
         · split at hx
@@ -71,6 +71,10 @@ theorem runLoop_complete (P : Program) (lim : Limits) :
       · rename_i hlen
         rw [if_pos hlen]
         have hsame := factMerge_same_length new facts hlen
+        split at hok
+        · simp at hok
+        rename_i hmf
+        rw [if_neg hmf]
         simp only
         rw [hsame]
         intro x hx
@@ -99,30 +103,30 @@ theorem runLoop_complete (P : Program) (lim : Limits) :
               exact ih _ _ (fun x hx => (mem_factMerge new facts).mpr (.inl (hinit x hx))) hok
 
 /-- the engine run on a program (initial store = the base facts, duplicates merged) -/
-def runProgram (P : Program) (lim : Limits) (extra : Nat := 10000) : RunOut :=
-  run P.syms P.rules lim (factMerge [] P.facts) extra
+def runProgram (P : Program) (lim : Limits) : RunOut :=
+  run P.syms P.rules lim (factMerge [] P.facts)
 
 /-- **Soundness**: nothing extra. -/
-theorem run_sound (P : Program) (lim : Limits) (extra : Nat) :
-    ∀ x ∈ (runProgram P lim extra).facts, Derives P x := by
+theorem run_sound (P : Program) (lim : Limits) :
+    ∀ x ∈ (runProgram P lim).facts, Derives P x := by
   apply runLoop_sound
   intro x hx
   exact Derives.base (by simpa using (mem_factMerge P.facts []).mp hx)
 
 /-- **Completeness**: nothing missing. -/
-theorem run_complete (P : Program) (lim : Limits) (extra : Nat)
-    (hok : (runProgram P lim extra).result = .ok ()) :
-    ∀ x, Derives P x → x ∈ (runProgram P lim extra).facts := by
+theorem run_complete (P : Program) (lim : Limits) 
+    (hok : (runProgram P lim).result = .ok ()) :
+    ∀ x, Derives P x → x ∈ (runProgram P lim).facts := by
   apply runLoop_complete _ _ _ _ _ _ hok
   intro x hx
   exact (mem_factMerge P.facts []).mpr (.inr hx)
 
 /-- **Exactness.** A run that ends without error or limit yields exactly the derivable
     (origin, fact) pairs. -/
-theorem run_exact (P : Program) (lim : Limits) (extra : Nat)
-    (hok : (runProgram P lim extra).result = .ok ()) (x : OFact) :
-    x ∈ (runProgram P lim extra).facts ↔ Derives P x :=
-  ⟨run_sound P lim extra x, run_complete P lim extra hok x⟩
+theorem run_exact (P : Program) (lim : Limits) 
+    (hok : (runProgram P lim).result = .ok ()) (x : OFact) :
+    x ∈ (runProgram P lim).facts ↔ Derives P x :=
+  ⟨run_sound P lim x, run_complete P lim hok x⟩
 
 /-! ## order independence -/
 
@@ -136,11 +140,11 @@ theorem derives_congr (P Q : Program) (hs : P.syms = Q.syms)
 /-- **Insertion order does not matter.** Two programs with the same facts and the same rules
     as sets — inserted in any order, any number of times — and successful runs under any limits
     have the same result set. -/
-theorem run_order_independent (P Q : Program) (lim lim' : Limits) (e e' : Nat) (hs : P.syms = Q.syms)
+theorem run_order_independent (P Q : Program) (lim lim' : Limits) (hs : P.syms = Q.syms)
     (hf : ∀ x, x ∈ P.facts ↔ x ∈ Q.facts) (hr : ∀ r, r ∈ P.rules ↔ r ∈ Q.rules)
-    (hP : (runProgram P lim e).result = .ok ()) (hQ : (runProgram Q lim' e').result = .ok ()) (x : OFact) :
-    x ∈ (runProgram P lim e).facts ↔ x ∈ (runProgram Q lim' e').facts := by
-  rw [run_exact P lim e hP, run_exact Q lim' e' hQ]
+    (hP : (runProgram P lim).result = .ok ()) (hQ : (runProgram Q lim').result = .ok ()) (x : OFact) :
+    x ∈ (runProgram P lim).facts ↔ x ∈ (runProgram Q lim').facts := by
+  rw [run_exact P lim hP, run_exact Q lim' hQ]
   exact ⟨derives_congr P Q hs (fun x => (hf x).mp) (fun r => (hr r).mp) x,
          derives_congr Q P hs.symm (fun x => (hf x).mpr) (fun r => (hr r).mpr) x⟩
 
